@@ -225,6 +225,30 @@ impl Lsp {
 
     /// Ends the session. The server does not exit by itself after `exit` (its writer thread keeps the
     /// process alive), so it is given a short grace period and then killed, as editors do.
+    /// An unsaved draft of a document comes and goes: the document is opened with a text whose line layout
+    /// differs from the file on disk, the server is made to compute locations and diagnostics for it, and it is
+    /// closed without saving. Afterwards the file on disk is the document again, and nothing of the draft may
+    /// show in any answer.
+    pub fn disturb(&mut self, uri: &str, disk_text: &str) -> Result<(), LspError> {
+        let draft = format!("// draft: not saved\n/* two more\n   lines é😉 */ let zzdraft = nowhere ;\n{disk_text}");
+        self.did_open(uri, &draft)?;
+        let doc = ClientDoc::new(&draft);
+        // a few requests in the draft: the first identifier after each of the first `let`s
+        let mut from = 0;
+        for _ in 0..3 {
+            let Some(i) = draft[from..].find("let ") else { break };
+            let b = from + i + 4;
+            let p = doc.position_of_byte(&draft, b);
+            self.position_request("textDocument/references", uri, p[0], p[1])?;
+            self.position_request("textDocument/definition", uri, p[0], p[1])?;
+            from = b;
+        }
+        self.did_close(uri)?;
+        // a request forces the refresh that follows the close
+        self.position_request("textDocument/definition", uri, 0, 0)?;
+        Ok(())
+    }
+
     pub fn shutdown(mut self) {
         self.request_timeout = Duration::from_secs(5);
         let _ = self.request("shutdown", Value::Null);
